@@ -3,6 +3,7 @@ import NeumannModel.KV.Model
 import NeumannModel.KV.Bloom
 import NeumannModel.KV.Index
 import NeumannModel.KV.Ring
+import NeumannModel.KV.Slab
 /-
   Line-protocol driver for the concurrent-store model (C11).
 
@@ -44,6 +45,13 @@ import NeumannModel.KV.Ring
     witness ring_race | witness ring_collision  →  `<wal> <collisions> <programs> <schedule>` (for `runr` / `runrn`)
     witness emb_mixture | witness durable_order | witness delete_skip_if_absent | witness bloom_late_add
                     →  `<wal> <programs> <schedule>` of the Lean witness theorems
+    seq <keepFree:0|1> <ops>
+      a SEQUENTIAL history on the store whose embedding slab is modelled as it is (`Slab.sRun`: index
+      id ↦ slot, free list, bump pointer) with `TensorStore::clear`
+        ops : separated by `;` : P,<key>,<val> | G,<key> | D,<key> | E,<key> | CLR
+      keepFree = 1 is NOT the code: `EmbeddingSlab::clear` without `free_slots.clear()`
+      answer: res <result of each op>,… | slots <live emb key>=<slot>,… | free <free list, top first> | wpos <n> | count <n>
+    witness clear_keeps_free_list  →  `<ops>` (for `seq`)
     lin <hist>  — not implemented (answers bad-op); the harness has its own Wing–Gong checker.
 -/
 open Neumann Neumann.Proto Neumann.KV
@@ -276,6 +284,31 @@ def showRunR (c : RingCfg) (w : String) (progs : List (List Op)) (sys : RSys) : 
     else ""
   base ++ walPart ++ s!" | q={if quiescentR sys then 1 else 0}"
 
+def parseSOp (s : String) : Option SOp :=
+  if s = "CLR" then some .clear else
+  match s.splitOn "," with
+  | ["P", k, v] => do pure (.put (← parseKey k) (← parseVal v))
+  | ["G", k] => (parseKey k).map .get
+  | ["D", k] => (parseKey k).map .delete
+  | ["E", k] => (parseKey k).map .exists_
+  | _ => none
+
+def showSOp : SOp → String
+  | .put k v => s!"P,{showKey k},{showVal v}"
+  | .get k => s!"G,{showKey k}"
+  | .delete k => s!"D,{showKey k}"
+  | .exists_ k => s!"E,{showKey k}"
+  | .clear => "CLR"
+
+def sopKey? : SOp → Option Key
+  | .put k _ | .get k | .delete k | .exists_ k => some k
+  | .clear => none
+
+def showSeq (ops : List SOp) (r : SStore × List Res) : String :=
+  let ks := sortKeys (ops.filterMap sopKey?)
+  let slots := ks.filterMap fun k => (sSlot r.1 k).map fun sl => s!"{showKey k}={sl}"
+  s!"res {joinOr (r.2.map showRes)} | slots {joinOr slots} | free {joinOr (r.1.es.free.map toString)} | wpos {r.1.es.wpos} | count {r.1.es.count}"
+
 def kvStep (_ : Unit) (line : String) : Unit × String :=
   let bad := ((), "bad-op")
   match words line with
@@ -316,6 +349,12 @@ def kvStep (_ : Unit) (line : String) : Unit × String :=
           let img := joinOr ((keyUniverse progs).map fun k => showView k (viewB (fun _ => false) b k))
           ((), showRun w progs b.sys (some img) ++ s!" | covers={if coversOn b (keyUniverse progs) then 1 else 0}")
       | _, _ => bad
+  | ["seq", kf, os] =>
+      if kf ≠ "0" ∧ kf ≠ "1" then bad else
+      match (os.splitOn ";").mapM parseSOp with
+      | some ops => ((), showSeq ops (sRun (kf = "1") ops))
+      | none => bad
+  | ["witness", "clear_keeps_free_list"] => ((), ";".intercalate (clearKeepsFreeListOps.map showSOp))
   | ["witness", "emb_mixture"] => ((), s!"0 {showProgs embMixtureProgs} {showNats embMixtureSched}")
   | ["witness", "durable_order"] => ((), s!"1 {showProgs durableOrderProgs} {showNats durableOrderSched}")
   | ["witness", "delete_skip_if_absent"] => ((), s!"1 {showProgs putDeleteAbsentProgs} {showNats putDeleteAbsentSched}")
